@@ -142,7 +142,7 @@ def enrich(S):
             todo = []
             for a in t["args"]:
                 ty = a["p"]["ty"] if a["k"] != "const" else ""
-                if "{closure:" in ty:
+                if ty.lstrip("&").replace("mut ", "").startswith("{closure:"):
                     todo.append(ty[ty.index("{closure:") + 9:ty.rindex("}")])
             seen_c = set()
             while todo:
@@ -1314,6 +1314,128 @@ def rule_check_before_send(S, res, phases, cs):
     res.count("sends_computed_from_checked_messages", n)
     if not bad and not n:
         res.ok("R2.9", "engine", "", "no send payload is computed from a message with demanded checks")
+
+
+def _predicate_polarity(fg, cb):
+    """'good' when the predicate returns the result of an equality / open_commitment, 'bad' when it returns an
+    inequality or a negated opening, None when mixed or unknown."""
+    good = bad = 0
+    ret_locals = {0}
+    for _ in range(3):
+        for blk in cb.blocks:
+            for st in blk["s"]:
+                if st["k"] == "assign" and st["p"]["l"] in ret_locals and not st["p"]["pr"] and st["r"]["k"] == "use" and st["r"]["o"]["k"] != "const" and not st["r"]["o"]["p"]["pr"]:
+                    ret_locals.add(st["r"]["o"]["p"]["l"])
+    neg = set()
+    for blk in cb.blocks:
+        for st in blk["s"]:
+            if st["k"] == "assign" and st["p"]["l"] in ret_locals and st["r"]["k"] == "un" and st["r"].get("op") == "Not" and st["r"]["a"]["k"] != "const":
+                neg.add(st["r"]["a"]["p"]["l"])
+    cd = None
+    for bi, blk in enumerate(cb.blocks):
+        if bi not in cb.live_blocks():
+            continue
+        for st in blk["s"]:
+            if st["k"] == "assign" and st["r"]["k"] == "bin" and st["r"]["op"] in ("Eq", "Ne") and not st["p"]["pr"]:
+                l = st["p"]["l"]
+                flip = l in neg
+                if l in ret_locals or l in neg or (blk["t"]["k"] == "switch" and blk["t"]["o"]["k"] != "const" and blk["t"]["o"]["p"]["l"] == l):
+                    is_eq = (st["r"]["op"] == "Eq") != flip
+                    if is_eq:
+                        good += 1
+                    else:
+                        bad += 1
+        t = blk["t"]
+        if t["k"] == "call" and not t["d"]["pr"] and (t["d"]["l"] in ret_locals or t["d"]["l"] in neg):
+            cn = callee_names(t)
+            if any(n.endswith("faand::open_commitment") for n in cn) or (cn and cn[-1].rsplit("::", 1)[-1] == "eq"):
+                if t["d"]["l"] in neg:
+                    bad += 1
+                else:
+                    good += 1
+            elif cn and cn[-1].rsplit("::", 1)[-1] == "ne":
+                if t["d"]["l"] in neg:
+                    good += 1
+                else:
+                    bad += 1
+    if good and not bad:
+        return "good"
+    if bad and not good:
+        return "bad"
+    return None
+
+
+def rule_adaptor_polarity(S, res, phases, cs):
+    """R2.12: a check written with a searching adaptor rejects in the right direction: `all(good)` must reject when the
+    result is false, `any(bad)` / `find(bad)` / `position(bad)` when it is true / Some.  `any(good)` rejected on false
+    accepts a message in which a single element is right; `all(bad)` rejected on true only rejects when every
+    element is wrong."""
+    fg = S.fg
+    n = 0
+    bad_n = 0
+    for c in cs:
+        lab_ok = any(OBL.get(l, {}).get("phase") in phases for l in c.labels)
+        if not lab_ok:
+            continue
+        b = c.body
+        for cbi, names in c.calls:
+            tl = names[-1].rsplit("::", 1)[-1] if names else ""
+            if tl not in ("any", "all"):
+                continue
+            t = b.blocks[cbi]["t"]
+            # the predicate is the last argument, and a closure itself (the iterator's type may mention closures too)
+            cdefs = [a["p"]["ty"][a["p"]["ty"].index("{closure:") + 9:a["p"]["ty"].rindex("}")] for a in t["args"][-1:] if a["k"] != "const" and a["p"]["ty"].lstrip("&").replace("mut ", "").startswith("{closure:")]
+            if not cdefs or t["d"]["pr"]:
+                continue
+            pol = None
+            for ck in fg.by_id.get(cdefs[0], []):
+                pol = _predicate_polarity(fg, fg.bodies[ck])
+            if pol is None:
+                continue
+            # which value of the adaptor's result takes the fail-closed edge of this check
+            sw = b.blocks[c.block]["t"]
+            if sw["k"] != "switch" or sw["o"]["k"] == "const" or sw["o"]["p"]["pr"]:
+                continue
+            cur, flips = sw["o"]["p"]["l"], 0
+            reached = False
+            for _ in range(6):
+                if cur == t["d"]["l"]:
+                    reached = True
+                    break
+                ds = defs_of(b, cur)
+                if len(ds) != 1 or ds[0][1] == "t":
+                    break
+                r = ds[0][2]
+                if r["k"] == "use" and r["o"]["k"] != "const" and not r["o"]["p"]["pr"]:
+                    cur = r["o"]["p"]["l"]
+                elif r["k"] == "un" and r.get("op") == "Not" and r["a"]["k"] != "const" and not r["a"]["p"]["pr"]:
+                    cur = r["a"]["p"]["l"]
+                    flips += 1
+                else:
+                    break
+            if not reached:
+                continue
+            tm = {str(v): tb for v, tb in sw["ts"]}
+            zero_t, other_t = tm.get("0"), sw["else"]
+            bad_targets = {x for (_s, x) in c.bad_edges}
+            if (zero_t in bad_targets) == (other_t in bad_targets):
+                continue
+            reject_on_operand_true = other_t in bad_targets
+            reject_on_result_true = reject_on_operand_true if flips % 2 == 0 else not reject_on_operand_true
+            n += 1
+            right = (tl == "all" and pol == "good" and not reject_on_result_true) or (tl == "any" and pol == "bad" and reject_on_result_true)
+            inst = "%s|%s|adaptor" % (b.owner.rsplit("::", 1)[-1], "/".join(sorted(c.labels))[:40])
+            if right:
+                res.ok("R2.12", inst, where(b, cbi), "`%s` over a predicate that returns %s, rejected when the result is %s" % (tl, "a match" if pol == "good" else "a mismatch", "true" if reject_on_result_true else "false"))
+            else:
+                bad_n += 1
+                res.bad("R2.12", inst, "the check is written as `%s` over a predicate that returns %s and rejects when the result is %s: %s" % (
+                    tl, "a match" if pol == "good" else "a mismatch", "true" if reject_on_result_true else "false",
+                    "one element that passes is enough for the whole message to be accepted" if tl == "any" else "the message is only rejected when every element fails"), where(b, cbi),
+                    key="R2.12|%s|%s" % (b.owner.rsplit("::", 1)[-1], "/".join(sorted(c.labels))[:40]))
+    res.count("adaptor_checks_examined_for_polarity", n)
+    if not bad_n:
+        res.ok("R2.12", "engine", "", "%d checks written with any / all: each rejects in the direction its predicate demands" % n)
 
 
 def rule_conjunct(S, res, phases, cs):
